@@ -202,4 +202,117 @@ theorem sound (p : Prog) (f q : Nat) (h : Mut p (analyse p) f q) : (analyse p)[f
   | @viaBorrow f q fn g args j a hf hext hmem harg ha hborrow _ ih =>
     exact absurd hborrow ih
 
+/-! ### the pass, said declaratively -/
+
+/-- does the argument / target name parameter `q` (or everything)? -/
+def names (a : Arg) (q : Nat) : Bool :=
+  match a with
+  | .none => false
+  | .root i => i == q
+  | .unknown => true
+
+/-- statement `s` clears the flag of parameter `q` -/
+def marksArgs (info : Option Flags) (q : Nat) : Nat → List Arg → Bool
+  | _, [] => false
+  | j, a :: as => (!calleeConst info j && names a q) || marksArgs info q (j+1) as
+
+def marks (known : Nat → Option Flags) (self : Nat) (q : Nat) : Stmt → Bool
+  | .assign t => names t q
+  | .call g args => marksArgs (if g = self then none else known g) q 0 args
+
+theorem mark_get (fl : Flags) (a : Arg) (q : Nat) :
+    (mark fl a)[q]? = if names a q then fl[q]?.map (fun _ => false) else fl[q]? := by
+  cases a with
+  | none => simp [mark, names]
+  | root i =>
+    simp only [mark, names, List.getElem?_set]
+    by_cases h : i = q
+    · subst h
+      simp only [beq_self_eq_true, if_true]
+      by_cases hl : i < fl.length
+      · simp [hl]
+      · simp [hl]
+    · simp [h]
+  | unknown => simp [mark, names, List.getElem?_map]
+
+theorem markArgs_get (info : Option Flags) (q : Nat) : ∀ (args : List Arg) (j : Nat) (fl : Flags),
+    (markArgs info j args fl)[q]? = if marksArgs info q j args then fl[q]?.map (fun _ => false) else fl[q]? := by
+  intro args
+  induction args with
+  | nil => intro j fl; simp [markArgs, marksArgs]
+  | cons a as ih =>
+    intro j fl
+    simp only [markArgs, marksArgs]
+    rw [ih]
+    by_cases hc : calleeConst info j
+    · simp [hc]
+    · simp only [hc, Bool.false_eq_true, if_false, Bool.not_false, Bool.true_and]
+      rw [mark_get]
+      by_cases hn : names a q <;> by_cases hm : marksArgs info q (j+1) as <;> simp [hn, hm, Option.map_map]
+
+theorem step_get (known : Nat → Option Flags) (self : Nat) (fl : Flags) (s : Stmt) (q : Nat) :
+    (step known self fl s)[q]? = if marks known self q s then fl[q]?.map (fun _ => false) else fl[q]? := by
+  cases s with
+  | assign t => simp only [step, marks]; exact mark_get fl t q
+  | call g args => simp only [step, marks]; exact markArgs_get _ q args 0 fl
+
+theorem foldl_get (known : Nat → Option Flags) (self : Nat) (q : Nat) : ∀ (body : List Stmt) (fl : Flags),
+    (body.foldl (step known self) fl)[q]? =
+      if body.any (marks known self q) then fl[q]?.map (fun _ => false) else fl[q]? := by
+  intro body
+  induction body with
+  | nil => intro fl; simp
+  | cons s rest ih =>
+    intro fl
+    simp only [List.foldl_cons, List.any_cons]
+    rw [ih, step_get]
+    by_cases hs : marks known self q s <;> by_cases hr : rest.any (marks known self q) <;> simp [hs, hr, Option.map_map]
+
+/-- **The pass, said declaratively.** Parameter `q` of a function keeps its flag exactly when it is a parameter of a function
+defined in DDP and *no* statement of the body names it as (part of) an assignment target or hands it to a parameter that is
+not known to be constant. So the flags do not depend on the order of the statements (the pass is flow-insensitive), a flag is
+cleared only for a reason that can be pointed at, and `sound` says the reasons suffice. -/
+theorem flag_iff (known : Nat → Option Flags) (self : Nat) (fn : Fn) (q : Nat) :
+    (analyseFn known self fn)[q]? = some true ↔
+      (q < fn.nparams ∧ fn.extern = false ∧ ∀ s ∈ fn.body, marks known self q s = false) := by
+  unfold analyseFn
+  by_cases hext : fn.extern
+  · simp only [hext, if_true]
+    constructor
+    · intro h
+      rw [List.getElem?_replicate] at h
+      split at h <;> simp at h
+    · intro ⟨_, h, _⟩; cases h
+  · have hE : fn.extern = false := by simpa using hext
+    rw [if_neg hext, foldl_get, List.getElem?_replicate]
+    by_cases hq : q < fn.nparams
+    · by_cases hany : fn.body.any (marks known self q) = true
+      · rw [if_pos hany, if_pos hq]
+        constructor
+        · intro h; simp at h
+        · rintro ⟨_, _, h⟩
+          obtain ⟨s, hs, hm⟩ := List.any_eq_true.mp hany
+          rw [h s hs] at hm; cases hm
+      · rw [if_neg hany, if_pos hq]
+        constructor
+        · intro _
+          refine ⟨hq, hE, fun s hs => ?_⟩
+          cases hm : marks known self q s with
+          | false => rfl
+          | true => exact absurd (List.any_eq_true.mpr ⟨s, hs, hm⟩) hany
+        · intro _; rfl
+    · rw [if_neg hq]
+      constructor
+      · intro h; split at h <;> simp at h
+      · rintro ⟨h, _⟩; exact absurd h hq
+
+/-- the flags of a function do not depend on the order of its statements -/
+theorem analyseFn_perm (known : Nat → Option Flags) (self : Nat) (fn fn' : Fn)
+    (hn : fn.nparams = fn'.nparams) (he : fn.extern = fn'.extern) (hp : fn.body.Perm fn'.body) (q : Nat) :
+    ((analyseFn known self fn)[q]? = some true) ↔ ((analyseFn known self fn')[q]? = some true) := by
+  rw [flag_iff, flag_iff, hn, he]
+  constructor
+  · intro ⟨a, b, c⟩; exact ⟨a, b, fun s hs => c s (hp.symm.subset hs)⟩
+  · intro ⟨a, b, c⟩; exact ⟨a, b, fun s hs => c s (hp.subset hs)⟩
+
 end DDP.ConstParam
